@@ -882,6 +882,14 @@ def _same_mask(ctx, m1, m2):
 def np_delete(ctx, a, obj, axis=None):
     """np.delete(a, np.where(cond)): the elements of a 1-D array (or of a selection of one) where cond is
     False, in order - kept as a selection aligned with the source indexing."""
+    if axis is None and isinstance(A.unwrap0(obj), int) and not isinstance(obj, bool) and isinstance(a, (Arr, tuple, PyList)):
+        # np.delete(a, 0) / np.delete(a, -1) on a 1-D array: a copy without its first / last element
+        k = A.unwrap0(obj)
+        a1 = arr(ctx, a)
+        if a1.ndim != 1 or k not in (0, -1):
+            raise Unsupported('np.delete with an integer other than 0 / -1, or rank > 1')
+        ctx.require('np.delete index in bounds', S.ge(a1.shape[0], 1), exc='IndexError')
+        return np_copy(ctx, A.getitem(ctx, a1, slice(1, None) if k == 0 else slice(None, -1)))
     if axis is not None or not isinstance(obj, A.WhereIdx):
         raise Unsupported('np.delete with anything but an np.where(...) index set')
     cond = obj.mask
